@@ -50,8 +50,14 @@ DIRECTED = [b'require "body"; if body :content "text" :contains "x" { discard; }
             b'require "body"; if body :raw :contains "x" { keep; }', b'require "date"; if currentdate :originalzone :is "date" "x" { keep; }']
 
 
+# (script with its require, the same script without it): after the first was accepted — by this Parser or by another one — the
+# second must still be refused (a process-wide memo of "what was acceptable" filled by the first shows here; round 17)
+PAIRS = []
+
+
 def script_pool(ctx, n):
     r = rng("c13-pool")
+    del PAIRS[:]
     g = gen_scripts.Gen(table_of(ctx), r)
     pool = [b"keep;", b'require "fileinto"; fileinto "a";', b'fileinto "a";', b'require ["regex","relational"]; if header :regex "a" "b" {keep;}',
             b'if header :regex "a" "b" {keep;}', b'require "imap4flags"; if hasflag "a" {keep;} # trailing comment\n', b"# only a comment\n",
@@ -65,6 +71,7 @@ def script_pool(ctx, n):
         pool.append(gen_scripts.render(toks, r, "rand"))
         if need and i % 3 == 0:
             pool.append(gen_scripts.render(toks[nreq:], r, "space"))      # same script without its require
+            PAIRS.append((pool[-2], pool[-1]))
         if i % 4 == 0:
             k = r.randrange(1, len(toks))
             pool.append(gen_scripts.render(toks[:k]))                      # truncated mid-construct
@@ -85,7 +92,16 @@ def run(ctx):
     evals = nontriv = 0
     samples = []
     directed_seqs = [[a_, b_] for a_ in DIRECTED for b_ in DIRECTED if a_ != b_]
+    n_before_pairs = nseq + len(directed_seqs)
+    pairs = [(pool[1], pool[2]), (pool[3], pool[4])] + [(d_, d_.split(b"; ", 1)[1]) for d_ in DIRECTED if d_.startswith(b"require")] + PAIRS
+    for w_, wo_ in pairs:
+        if wo_ not in model:
+            model[wo_] = run_driver(["parse " + hx(wo_)])[0]
+        directed_seqs += [[w_, wo_], [w_, b"keep;", wo_], [w_, wo_, w_, wo_]]
+    r_state = None
     for s in range(nseq + len(directed_seqs)):
+        if s == n_before_pairs:
+            r_state = r.getstate()      # the sequences added for the pairs leave the random stream of everything after them alone
         seq = [r.choice(pool) for _ in range(r.randint(2, 6))] if s < nseq else directed_seqs[s - nseq]
         reused = Parser()
         standby = [Parser(), Parser()]      # objects created before the sequence starts and used somewhere in it
@@ -156,6 +172,8 @@ def run(ctx):
                                  "what": "FiltersSet scenario %r differs from the pristine interpreter: %r vs %r" % (bad[0][0], bad[0][1:3], bad[1][1:3])})
         if s < 3:
             samples.append([t.decode("latin-1") for t in seq])
+    if r_state is not None:
+        r.setstate(r_state)
     # systematic part: a parse that FAILS at every possible point of scripts using every stateful parser feature (argument
     # re-assignment / lexer rewind, require, brackets, lists, multi-line text, comments), followed on the same Parser by probes
     BASES = [b'require "imap4flags"; if hasflag "\\\\Seen" { keep; }', b'require "imap4flags"; if anyof (hasflag "x", hasflag ["a","b"]) { keep; }',
